@@ -26,13 +26,38 @@ pub mod hyper {
     /// result of `a.extend(b)`: b's entries laid over a's
     pub uninterp spec fn hm_extend(a: HeaderMap, b: HeaderMap) -> HeaderMap;
     pub uninterp spec fn ext_extend(a: Extensions, b: Extensions) -> Extensions;
-    /// result of ops::get_object::merge_custom_headers
-    pub uninterp spec fn hm_merge_custom(a: HeaderMap, b: HeaderMap) -> HeaderMap;
+    pub struct HeaderName { pub opaque: u64 }
+    impl HeaderName { pub uninterp spec fn text(&self) -> Seq<char>; }
+    #[verifier::external_body]
+    pub exec const TRANSFER_ENCODING: HeaderName ensures TRANSFER_ENCODING.text() == "transfer-encoding"@ { HeaderName { opaque: 0 } }
+    #[verifier::external_body]
+    pub exec const CONTENT_LENGTH: HeaderName ensures CONTENT_LENGTH.text() == "content-length"@ { HeaderName { opaque: 0 } }
+    /// first value stored under a name / the map without a name (uninterpreted views of HeaderMap::get / remove)
+    pub uninterp spec fn hm_get(a: HeaderMap, name: Seq<char>) -> Option<HeaderValue>;
+    pub uninterp spec fn hm_remove(a: HeaderMap, name: Seq<char>) -> HeaderMap;
+    /// what ops::get_object::merge_custom_headers may leave in the response: the backend's headers laid over the response's,
+    /// all of them, except that Content-Length may be dropped — and only when a Transfer-Encoding is present (issue 80)
+    pub open spec fn merge_ok(result: HeaderMap, a: HeaderMap, b: HeaderMap) -> bool {
+        &&& (hm_get(hm_extend(a, b), "transfer-encoding"@) is None ==> result == hm_extend(a, b))
+        &&& (result == hm_extend(a, b) || result == hm_remove(hm_extend(a, b), "content-length"@))
+    }
+    impl HeaderValue {
+        #[verifier::external_body]
+        pub fn as_bytes(&self) -> (r: &[u8]) { unimplemented!() }
+    }
     pub open spec fn hm_is(a: HeaderMap) -> bool { true }
     impl HeaderMap {
         #[verifier::external_body]
         pub fn extend(&mut self, other: HeaderMap)
             ensures *final(self) == hm_extend(*old(self), other)
+        { unimplemented!() }
+        #[verifier::external_body]
+        pub fn get(&self, name: HeaderName) -> (r: Option<&HeaderValue>)
+            ensures (r matches Some(v) ==> hm_get(*self, name.text()) == Some(*v)), (r is None ==> hm_get(*self, name.text()) is None)
+        { unimplemented!() }
+        #[verifier::external_body]
+        pub fn remove(&mut self, name: HeaderName) -> (r: Option<HeaderValue>)
+            ensures *final(self) == hm_remove(*old(self), name.text())
         { unimplemented!() }
     }
     impl Extensions {
@@ -93,7 +118,7 @@ pub mod ops {
     use crate::http;
     use crate::http::{Request, Response};
     use crate::protocol::{S3Request, S3Response};
-    use crate::hyper::{HeaderMap, HeaderValue, hm_extend, ext_extend, hm_merge_custom, hm_is};
+    use crate::hyper::{HeaderMap, HeaderValue, hm_extend, ext_extend, merge_ok, hm_is};
     use crate::dto::*;
     use std::mem;
 
@@ -148,17 +173,13 @@ pub mod ops {
         use crate::error::*;
         use crate::http::Response;
         use crate::protocol::S3Request;
-        use crate::hyper::{HeaderMap, HeaderValue, hm_merge_custom};
+        use crate::hyper::{HeaderMap, HeaderValue, hm_extend, hm_get, hm_remove, merge_ok, TRANSFER_ENCODING, CONTENT_LENGTH};
         use crate::dto::*;
         #[verifier::external_body]
         pub fn extract_overridden_response_headers(req: &S3Request<GetObjectInput>) -> (r: S3Result<HeaderMap<HeaderValue>>)
             ensures r matches Err(e) ==> err_from(e, ErrSrc::Decode),
         { unimplemented!() }
-        #[verifier::external_body]
-        pub fn merge_custom_headers(resp: &mut Response, headers: HeaderMap<HeaderValue>)
-            ensures final(resp).headers == hm_merge_custom(old(resp).headers, headers), final(resp).status == old(resp).status,
-                final(resp).body == old(resp).body, final(resp).extensions == old(resp).extensions,
-        { unimplemented!() }
+//@@ extract merge_custom_headers file=crates/s3s/src/ops/get_object.rs item="fn merge_custom_headers" rewrites=attr
     }
 
     pub mod generated {
